@@ -21,7 +21,7 @@ for k in known:
         for f in files:
             b = json.load(open(f))
             if 'history_args' in b or str(b.get('prop', '')).startswith('kf'): continue   # (witness functions of recorded findings fail by design)                     # needs the whole shard: too slow for a seconds-long tier
-            if b.get('kind', '').startswith(('hang', 'memory', 'died:cpu-budget')): continue   # budget oracles are not replayed on every run
+            if b.get('kind', '').startswith(('hang', 'memory:', 'memory out', 'died:cpu-budget')): continue   # budget oracles are not replayed on every run
             key = (b.get('unit'), b.get('prop'))
             if key in seen or n >= 3: continue
             seen.add(key); n += 1
